@@ -35,6 +35,7 @@ def run(facts, rep):
     d1_entry(facts, rep)
     d2_null(facts, rep)
     d2_nullable_tls(facts, rep)
+    d2_backref_validity(facts, rep)
     d3_pools(facts, rep)
 
 
@@ -511,3 +512,41 @@ def d2_nullable_tls(facts, rep):
                        key_extra='%s:%s' % (fn.p, node['ln']))
     if n < 8:
         raise AnalysisBroken('only %d dereferences of nullable TLS pointers found' % n)
+
+
+def d2_backref_validity(facts, rep):
+    """K13 for back references: BackRefIdx::newBackRef() yields an INVALID index when the table cannot grow (the OS refused the
+    memory for a new leaf).  removeBackRef / setBackRef index the table with what they are given - in release builds the validity
+    assertion is compiled out - so a local index that comes from newBackRef reaches them only on edges where isInvalid() was
+    tested and found false.  Otherwise a refused request crashes / writes through a wild pointer instead of reporting failure."""
+    from engine.rules import vars_initialised_from
+    n = 0
+    for fn in sorted(facts.fns.values(), key=lambda f: f.q):
+        if '/src/tbbmalloc/' not in fn.file:
+            continue
+        src = [c[1] for c in calls_named(fn, ('newBackRef',))]
+        if not src:
+            continue
+        vids = set(v for v in vars_initialised_from(fn, src))
+        # arrays of indices (Block::... slab path) are validated element by element in a loop: not decidable here
+        scal = set()
+        for pos, s, nd in fn.stmt_elems(('decl',)):
+            for v in nd['vars']:
+                if v['v'] in vids and '[' not in (v.get('ty') or ''):
+                    scal.add(v['v'])
+        for vid in sorted(scal):
+            valid = edges_where(fn, lambda a, truth, vid=vid: (not truth) and fn.n(fn.strip(a)).get('k') == 'call' and
+                                (fn.callee(fn.strip(a)) or {}).get('n') == 'isInvalid' and
+                                fn.n(fn.strip(fn.n(fn.strip(a)).get('obj', -1))).get('v') == vid)
+            for pos, s, node, d in calls_named(fn, ('removeBackRef', 'setBackRef')):
+                if not any(fn.nodes[x].get('k') == 'var' and fn.nodes[x].get('v') == vid for a in node.get('a', []) for x in fn.subtree(a)):
+                    continue
+                n += 1
+                ok, wit = dominated_by_edges(fn, pos, valid)
+                rep.ob('D2', 'K13', fn, 'the back reference index from newBackRef() reaches %s (line %s) only after isInvalid() was found false'
+                       % (d['n'], node['ln']), ok,
+                       'when the table of back references cannot grow the index is invalid; %s then indexes the table with 0xFFFFFFFF: a refused '
+                       'request crashes or writes through a wild pointer instead of reporting failure (%s)' % (d['n'], wit),
+                       ln=node['ln'], key_extra='backref|%s|%s' % (d['n'], node['ln']))
+    if n < 2:
+        raise AnalysisBroken('uses of a fresh back reference index found: %d (expected mallocLargeObject, StartupBlock::getBlock)' % n)
